@@ -55,6 +55,9 @@ def cases(tier, seed):
         for d, n, noise in (COUPLED_QUICK if tier == 'quick' else COUPLED_THOROUGH):
             out.append(('fit', d, ('coupled', n, noise), vt, tier))
     for vt in TYPES:
+        for d, n, noise in ((4, 240, 0.05), (5, 240, 0.1), (6, 240, 0.03)) + (() if tier == 'quick' else ((6, 240, 0.05), (3, 400, 0.02), (5, 240, 0.03))):
+            out.append(('fit', d, ('bundle', n, noise), vt, tier))
+    for vt in TYPES:
         for d in (3, 4):
             out.append(('layerA', d, 0, vt, tier))
     if tier != 'quick':
@@ -215,7 +218,8 @@ def ref_loglik(trees, row):
 def probe_rows(d):
     rows = [np.full(d, 0.5), np.linspace(0.2, 0.8, d), np.linspace(0.85, 0.15, d),
             np.array([0.3 + 0.4 * ((3 * j) % 5) / 5 for j in range(d)]),
-            np.array([0.01 if j % 2 else 0.99 for j in range(d)]), np.full(d, 0.97), np.full(d, 0.04)]
+            np.array([0.01 if j % 2 else 0.99 for j in range(d)]), np.full(d, 0.97), np.full(d, 0.04),
+            np.array([0.05 if j % 2 else 0.95 for j in range(d)]), np.array([0.1 if j % 2 else 0.9 for j in range(d)])]
     return rows
 
 
@@ -259,8 +263,11 @@ def likelihood_check(r, v, trees, tag, case, sigp, with_roundtrip=True):
                             f'{val!r} [{kname}]', case=case)
                 return
         fin = np.isfinite(ref)
-        hard = any(famname(e.name) == 'frank' and abs(e.theta) >= 8 for t in trees for e in t.edges)
-        tol_l = 1e-6 if hard else 1e-9          # Frank's closed forms are only good to ~1e-7 relative for |theta| >= 8 (C07)
+        hard = any((famname(e.name) == 'frank' and abs(e.theta) >= 8) or not in_c07_range(famname(e.name), e.theta)
+                   for t in trees for e in t.edges)
+        # Frank's closed forms are only good to ~1e-7 relative for |theta| >= 8 (C07); beyond |tau| = 0.8 (any family) an h-value
+        # next to 0 or 1 is propagated with few significant digits, and the next tree's density inherits that
+        tol_l = 1e-6 if hard else 1e-9
         if (fin and not abs(base - ref) <= tol_l * max(1.0, abs(ref))) or (not fin and np.isfinite(base) and abs(base) < 1e300):
             r.violation(f'{sigp}:likelihood-value', f'{tag}: get_likelihood({row.tolist()}) = {base!r}, the sum of log pair-copula '
                         f'densities at the h-propagated arguments is {ref!r}', case=case)
@@ -304,11 +311,26 @@ def coupled_table(d, n=240, noise=0.05):
     return pd.DataFrame(cols)
 
 
+def bundle_table(d, n=240, noise=0.05):
+    """ALL columns share one factor (pairwise Kendall tau ~0.95): every first-tree edge is strongly dependent, so a probe row far
+    from the diagonal has a log-likelihood of several -100 per edge - the SUM over a tree's edges is far below log(float min)
+    while every single pair density is an ordinary float."""
+    import pandas as pd
+    from scipy import stats
+    Z = stats.norm.ppf(A.lattice(n + 1, d + 1)[1:])
+    return pd.DataFrame({f'b{j}': Z[:, 0] + noise * Z[:, 1 + j] for j in range(d)})
+
+
 def _fit(r, case):
     from copulas.multivariate import VineCopula
     from mc.checks.c16 import layer_b_table
     _, d, k, vt, tier = case
-    df, dname = (coupled_table(d, k[1], k[2]), f'coupled(n={k[1]},noise={k[2]})') if isinstance(k, tuple) else layer_b_table(d, k)
+    if isinstance(k, tuple) and k[0] == 'bundle':
+        df, dname = bundle_table(d, k[1], k[2]), f'bundle(n={k[1]},noise={k[2]})'
+    elif isinstance(k, tuple):
+        df, dname = coupled_table(d, k[1], k[2]), f'coupled(n={k[1]},noise={k[2]})'
+    else:
+        df, dname = layer_b_table(d, k)
     for t in sorted({1, 2, max(1, d - 1)}):
         tag = f'VineCopula({vt}).fit(table d={d} design {dname}, truncated={t})'
         sigp = f'C17:{vt}'
